@@ -245,7 +245,7 @@ fn reject_promise(
 
     // Signal cancelled order if this was a host Promise
     if let Some(id) = order_id {
-        interp.cancelled_orders.push(id);
+        interp.note_cancelled_order(id);
     }
 
     // The handlers are no longer reachable from the promise: keep all of them (and the reason)
@@ -883,7 +883,7 @@ pub fn handle_promise_race_settle(
         if i != winner_index
             && let Some(id) = order_id
         {
-            interp.cancelled_orders.push(*id);
+            interp.note_cancelled_order(*id);
         }
     }
 
